@@ -47,7 +47,8 @@ M_FRESH = set('''copy flatten tolist astype sum mean std var max min prod trace 
 conj conjugate round clip nonzero item tobytes tostring repeat take compress ptp searchsorted
 lower upper strip split join format startswith endswith replace title capitalize lstrip rstrip isdigit isalpha count index
 keys values items timetuple toordinal isoformat issubset issuperset union intersection difference
-decode encode splitlines read readline'''.split())
+decode encode splitlines read readline
+uniform random standard_normal integers normal choice'''.split())
 M_ALIAS = set('''reshape view squeeze ravel transpose swapaxes diagonal get pop setdefault'''.split())       # may return (part of) the receiver
 M_INPLACE = set('''sort fill resize put itemset partition setfield byteswap'''.split())                       # change the receiver's bytes
 M_STORE = set('''append extend insert update add remove clear reverse'''.split())                             # change a container receiver
